@@ -29,6 +29,11 @@ CHECKS.update({
         text="Exploration. Sequences of 2-5 documents in any mix of nine parsers (nt, nquads, turtle, trig, n3, rdf/xml, trix, json-ld, hext) are parsed into one Graph or Dataset that already has content. Documents are rendered by the harness's own minimal writers with explicit _:labels from a small shared pool that includes labels equal to ids of nodes already in the target and rdflib-looking N<hex> ids; the same document is often parsed twice; some are truncated so the parse fails half-way. After each parse: old content is a subset of the new content exactly; the added statements are isomorphic to the document's own graph (so a label repeated inside one document, across its named graphs too, is one node); no added blank node is a node that was already there; two fresh parses of one document are isomorphic. JSON-LD and HexTuples keep document labels (listed findings, pinned by the repository's tests) and are carved out for documents that use blank nodes.",
         note="Plain Graph targets get triple-format documents only. A failed parse only has to keep the old content.",
         ref="DESIGN.md §3 C12"),
+    "C13": dict(
+        technique="runtime monitoring: store-level before/after snapshots around every read-only API call, each call made twice (repeat-read equality)",
+        text="Exploration. Generated graphs and datasets (blank-node-named graphs, empty graphs, default_union on/off, lists, bnode cycles) are held in Graph (both stores), Dataset, ConjunctiveGraph and ReadOnlyGraphAggregate; about 60 read-only calls are made on each: serialize in all 12 formats and some options, 15 SELECT/ASK/CONSTRUCT/DESCRIBE queries incl. GRAPH on unknown graphs and property paths, isomorphic / to_isomorphic / to_canonical_graph / graph_diff / set operators, iteration, slicing, value, items, cbd, all_nodes, connected, membership and reads with quads whose graph is a view, an identifier, an unknown name or a foreign Graph object. The quads and the set of graphs are read from the store itself before and after every call and must be identical; every call is made twice and must answer the same (serialisations up to statement order, result graphs up to isomorphism).",
+        note="Prefix bindings are not part of the snapshot. RAND/NOW/UUID/BNODE() queries are not generated.",
+        ref="DESIGN.md §3 C13"),
     "C14": dict(
         technique="runtime monitoring: differential of rdflib.compare against an independent refinement+backtracking bijection search on generated (graph, perturbed copy) pairs",
         text="Exploration. Pairs (G, H) where H is a relabelled/shuffled copy of G, optionally with one edge rewired, reversed, re-predicated, dropped or a ground triple changed; G from random bnode graphs and from symmetric families where colour refinement cannot split cells (cycles, K_mn, disjoint identical components, circulants, Petersen, hypercubes, C6 vs 2xC3). isomorphic(), to_isomorphic equality, equality of canonical graphs, the three graph_diff parts and the skolemise/de-skolemise round trip are compared with the oracle's answer. rdflib's search runs under a per-case wall watchdog; timeouts are counted as skipped.",
